@@ -160,6 +160,59 @@ theorem grammar_env_is_proper (cells : CellId → Option Expr) (ar : CellId → 
 example : ProperEnv tEnv := grammar_env_is_proper tCells _ tEnv (fun _ => rfl)
 example : ProperEnv uEnv := grammar_env_is_proper uCells _ uEnv (fun _ => rfl)
 
+/-! ### Limitation: a deferred re-raise of an EARLIER exception is outside the model
+
+`Prog.reraise` continues the exception that is current (`St.curExc`): the one just received from a
+failed call or – after calls that RETURNED (`keepExc`) – the one that was being handled.  What it cannot
+express is Python's `except E as e: <a call that FAILS and is handled inside the block>; raise e`: the
+handled failure of the block leaves ITS exception current in the model, while Python re-raises the
+object `e`.  `rrEnv` below is such a program and it is `ProperEnv` (the theorems apply to it and are
+true OF THE MODEL: the traceback is the chain of the model's current exception, `[c0, c2]`) – but
+modelx answers `[c0, c1, c3]` (`notes/EXECP-repro_deferred_reraise.py`; `CallStack.rollback` tags with
+`sys.exc_info()[1]`, which is `e`).  So the class in which the model describes Python is smaller than
+`ProperEnv`: on the grammar it is `blocksSimple` (`Exec/Expr.lean`: the block of `tryRe` / `tryFin`
+contains no `try` of its own) – the driver refuses programs outside it, and `Expr` has no construct
+that binds an exception to a name, so no generated program is affected; a formula written by hand as
+above is not covered by C17's theorems in any meaningful way.  Removing the limitation needs the
+identity of the propagating exception in `Res.err` / `reraise`.
+
+(The note on `Env.maxdepth = 0` is in `Props/C05.lean`.) -/
+
+def rrEnv : Env where
+  formula := fun n => match n.1 with
+    | 0 => .call (1, []) (fun r1 => match r1 with
+        | .ok v => .ret v
+        | .err e1 => .call (2, []) (fun _ => .reraise e1))
+    | 1 => .call (3, []) (fun r => match r with | .ok v => .ret v | .err e => .reraise e)
+    | 2 => .raise (.user kKey)
+    | _ => .raise (.user kValue)
+  cached := fun _ => true
+  allowNone := fun _ => false
+  refs := fun _ => none
+  maxdepth := 10
+
+/-- **the model's answer for a deferred re-raise**: the error carried is the `ValueError` of `c3`, the
+traceback is the chain of the `KeyError` of `c2` – where modelx reports `[c0, c1, c3]`.  The program is
+`ProperEnv`: the hypothesis of `traceback_is_chain` does not exclude it; what excludes it from the
+claim is the correspondence (class `blocksSimple`). -/
+theorem deferred_reraise_outside_model :
+    ProperEnv rrEnv ∧
+    (evalTop rrEnv (0, []) {}).1 = .formulaError (.user kValue) [(0, []), (2, [])] := by
+  refine ⟨?_, by decide⟩
+  intro n
+  show ProperL false (match n.1 with
+    | 0 => Prog.call (1, []) (fun r1 => match r1 with
+        | .ok v => .ret v
+        | .err e1 => .call (2, []) (fun _ => .reraise e1))
+    | 1 => .call (3, []) (fun r => match r with | .ok v => .ret v | .err e => .reraise e)
+    | 2 => .raise (.user kKey)
+    | _ => .raise (.user kValue))
+  split
+  · exact ⟨fun _ => trivial, fun _ => ⟨fun _ => rfl, fun _ => rfl⟩⟩
+  · exact ⟨fun _ => trivial, fun _ => rfl⟩
+  · trivial
+  · trivial
+
 /-! ### A cells evaluated while an exception passes through: `except …: audit(x); raise`, `finally:`
 
 `vCells`: `c0 = c1() + 1`; `c1 = try: c3() except ValueError: c2(); raise`; `c2` (the audit) handles a
